@@ -1,5 +1,5 @@
 SPECIFICATION Spec
-CONSTANT KS = {0, 1}
+CONSTANT KS = {0}
 CONSTANT NES = {1, 2, 3}
 INVARIANT BeforeConsistent
 INVARIANT ImplSatisfiesD
